@@ -239,12 +239,38 @@ occ = z3.Function("occ", ISq, ISq, I, B)            # t occurs in s at offset o
 REVEALABLE = {}
 
 
+rng = z3.Function("rng", I, I)          # the i-th value drawn from random.getrandbits(32) (any stream)
+fill = z3.Function("fill", I, I, ISq)   # fill(v, n): n copies of v  (b"X" * n)
+
+
+b64e = z3.Function("b64e", ISq, ISq)      # base64.b64encode
+b64d = z3.Function("b64d", ISq, ISq)      # base64.b64decode (non-validating), defined where b64_ok
+b64ue = z3.Function("b64ue", ISq, ISq)    # base64.urlsafe_b64encode
+b64ud = z3.Function("b64ud", ISq, ISq)    # base64.urlsafe_b64decode
+b64_ok = z3.Function("b64_ok", ISq, B)
+b64u_ok = z3.Function("b64u_ok", ISq, B)
+PAD2 = None
+
+
+def pad2():
+    return IS.cat(IS.cat(IS.empty, IS.unit(z3.IntVal(61))), IS.unit(z3.IntVal(61)))
+
+
 def lib_axioms():
     s, t, k = z3.Consts("s_l t_l k_l", ISq)
     i, n, v, w = z3.Ints("i_l n_l v_l w_l")
     ln, at = IS.len, IS.at
     isbytes = lambda q: FA([i], z3.Implies(z3.And(0 <= i, i < ln(q)), _isb(at(q, i))), patterns=[at(q, i)])
     A = []
+    # ASSUMED (base64 module, C code in binascii; cross-checked against an RFC 4648 implementation in bounded/C04.py):
+    # results are byte strings; decoding an encoding followed by two surplus '=' returns the original bytes
+    for f in (b64e, b64d, b64ue, b64ud):
+        A.append(FA([s], isbytes(f(s)), patterns=[f(s)]))
+    for enc, dec, ok in ((b64e, b64d, b64_ok), (b64ue, b64ud, b64u_ok)):
+        A.append(FA([s], z3.And(ok(IS.cat(enc(s), pad2())), dec(IS.cat(enc(s), pad2())) == s), patterns=[enc(s)]))
+    A.append(FA([i], z3.And(0 <= rng(i), rng(i) < 2 ** 32), patterns=[rng(i)]))
+    A.append(FA([v, n], ln(fill(v, n)) == z3.If(n > 0, n, 0), patterns=[fill(v, n)]))
+    A.append(FA([v, n, i], z3.Implies(z3.And(0 <= i, i < n), at(fill(v, n), i) == v), patterns=[at(fill(v, n), i)]))
     # int.to_bytes(int.from_bytes(a) ^ int.from_bytes(b), n) for equal-length byte strings of length n
     # is the point-wise xor (assumed law of CPython ints, cross-checked in bounded/axioms.py)
     A.append(FA([s, t, n], z3.Implies(z3.And(ln(s) == n, ln(t) == n),
